@@ -1,0 +1,44 @@
+//go:build verif
+
+// Contracts for gzv (contract-based deductive verification, /verif). Comment-only file.
+package sqlx
+
+// ---------------------------------------------------------------------------------------------
+// C14 transactions end exactly once: commit iff the body returned nil without panicking.
+// Ghost counters on the transaction interface (trusted interface contracts: one call = one increment).
+// ---------------------------------------------------------------------------------------------
+//@ ghost var commits int
+//@ ghost var rollbacks int
+//@ ghost var commitErr error
+//@ ghost var rollbackErr error
+
+//@ extern func (t trans) Commit
+//@   ensures commits == old(commits) + 1 && result == commitErr
+//@   modifies commits, commitErr
+//@ extern func (t trans) Rollback
+//@   ensures rollbacks == old(rollbacks) + 1 && result == rollbackErr
+//@   modifies rollbacks, rollbackErr
+
+//@ func transactOnConn
+//@   property C14
+//@   flag callbacks_noheap nopanic:b
+//@   requires b != fn
+//@   ensures  implies(ret(b, 1) != nil, err == ret(b, 1) && calls(fn) == old(calls(fn)) && commits == old(commits) && rollbacks == old(rollbacks))
+//@   ensures  implies(ret(b, 1) == nil, calls(fn) == old(calls(fn)) + 1 && ((commits == old(commits) + 1 && rollbacks == old(rollbacks)) || (commits == old(commits) && rollbacks == old(rollbacks) + 1)))
+//@   ensures  implies(ret(b, 1) == nil, iff(commits == old(commits) + 1, !panicked(fn) && ret(fn) == nil))
+//@   ensures  implies(ret(b, 1) == nil && commits == old(commits) + 1, err == commitErr)
+//@   ensures  implies(ret(b, 1) == nil && rollbacks == old(rollbacks) + 1, err != nil)
+//@   ensures  implies(ret(b, 1) == nil && !panicked(fn) && ret(fn) != nil && rollbackErr == nil, err == ret(fn))
+//@   ensures  calls(b) == old(calls(b)) + 1
+//@   ensures_panic false
+//@   modifies commits, rollbacks, commitErr, rollbackErr, calls(fn), calls(b)
+
+//@ func transact
+//@   property C14
+//@   flag callbacks_noheap nopanic:connProv nopanic:onError
+//@   requires b != fn && db.connProv != fn && db.connProv != b && db.onError != fn && db.onError != b
+//@   ensures  implies(ret(db.connProv, 1) != nil, err == ret(db.connProv, 1) && calls(fn) == old(calls(fn)) && commits == old(commits) && rollbacks == old(rollbacks))
+//@   ensures  implies(err == nil, commits == old(commits) + 1 && rollbacks == old(rollbacks) && commitErr == nil)
+//@   ensures  commits + rollbacks <= old(commits) + old(rollbacks) + 1
+//@   ensures_panic false
+//@   modifies commits, rollbacks, commitErr, rollbackErr, calls(fn), calls(b), calls(db.connProv), calls(db.onError)
